@@ -113,6 +113,18 @@ Fixpoint superseded_writes (evs : list event) : bool :=
   | [] => false
   end.
 
+(* KF (C20): a message queued on a client object that has already been taken over - in the take-over
+   window the old connection's teardown can still find its own object under the client id (e.g. when
+   the session subscribes to its own will topic).  The hooks store it under the session's key, the
+   session's live client object never sees it: store and memory diverge, and the record outlives the
+   session. *)
+Fixpoint superseded_delivery (evs : list event) : bool :=
+  match evs with
+  | ESuperseded c :: ((EQosPublish c' _ _ :: _) as rest) => beq_bytes c c' || superseded_delivery rest
+  | _ :: rest => superseded_delivery rest
+  | [] => false
+  end.
+
 (* ---------- specification ---------- *)
 
 (* C21 for one crash point: the restarted broker holds exactly the state the first k writes describe
